@@ -459,6 +459,27 @@ Definition wire_stable_kb (kb : key_block) : bool :=
 Definition wire_stable (o : object) : bool :=
   match object_key_block o with Some kb => wire_stable_kb kb | None => true end.
 
+(** Shapes KeyBlock.TagDecodeTTLV / KeyValue.decode / KeyMaterial.decode can produce: KeyValue
+    absent, or wrapped bytes, or a plain value whose material is absent or sits in the slot the
+    KeyFormatType designates.  This is what "decodable object" means for the accessors. *)
+Definition decodable_kb (kb : key_block) : bool :=
+  match kb_value kb with
+  | None => true
+  | Some kv =>
+    match kv_wrapped kv, kv_plain kv with
+    | Some _, None => true
+    | None, Some p =>
+      match populated_slots (pk_material p), decode_slot (kb_format kb) with
+      | [], Some _ => true
+      | [s], Some s' => slot_eqb s s'
+      | _, _ => false
+      end
+    | _, _ => false
+    end
+  end.
+Definition decodable (o : object) : bool :=
+  match object_key_block o with Some kb => decodable_kb kb | None => true end.
+
 (** * Stage 3: Extract (objects.go) *)
 
 (** KeyBlock.GetMaterial (with the nil check on KeyValue) *)
